@@ -226,6 +226,25 @@ class PropertyRun:
             out.append(kani.run_harness(cdir, h, timeout=ks.get('timeout', 1500), extra=ks.get('extra_args')))
         return out
 
+    def try_signature_only(self, grp):
+        """a changed, loop-free unit whose inner proof text no longer fits: re-weave it with its contract only"""
+        grp['fallback_done'] = True
+        w = grp['woven']
+        cands = [u.label for u in w['units'] if u.kind == 'fn' and not u.identical_to_frozen
+                 and not re.search(r'\b(while|loop|for)\b', re.sub(r'//[^\n]*', '', u.cur_text))]
+        if not cands:
+            return False
+        try:
+            w2 = weave.weave_template(grp['template'], sig_only=tuple(cands))
+        except (WeaveError, rules.RuleError, ValueError):
+            return False
+        grp['woven'] = w2
+        grp['sig_only'] = cands
+        open(grp['path'], 'w').write(w2['text'])
+        rl = grp['cfg'].get('rlimit')
+        grp['res'] = runner.run_verus(grp['path'], rl)
+        return True
+
     # ------------------------------------------------------------------ classification
     def classify_kani(self):
         self.kani_ev = []
@@ -287,8 +306,21 @@ class PropertyRun:
             if vr.get('encountered-vir-error') or (vr.get('encountered-error') and not vr.get('errors')):
                 # compile / unsupported-feature error
                 msg = '; '.join(e['message'] for e in errs[:3])
-                self.undecided.append('group=%s reason=verus rejected the file (not a verification failure): %s' % (name, msg[:500]))
-                continue
+                if not grp.get('fallback_done') and self.try_signature_only(grp):
+                    res = grp['res']
+                    js = res['json']
+                    vr = js.get('verification-results', {}) if js else {}
+                    errs = runner.errors_of(res) if js else []
+                    if js is None or vr.get('encountered-vir-error') or (vr.get('encountered-error') and not vr.get('errors')):
+                        self.undecided.append('group=%s reason=verus rejected the file (also with signature-only weaving): %s' % (name, msg[:400]))
+                        continue
+                    grp['verified'] = vr.get('verified', 0)
+                    grp['errors'] = vr.get('errors', 0)
+                    self.notes.append('group=%s: inner proof text could not be transported onto a restructured body; units %s verified against their '
+                                      'pre/postconditions only (signature-only weaving)' % (name, grp['sig_only']))
+                else:
+                    self.undecided.append('group=%s reason=verus rejected the file (not a verification failure): %s' % (name, msg[:500]))
+                    continue
             for e in errs:
                 kind = runner.classify_message(e['message'])
                 # locate
@@ -305,6 +337,9 @@ class PropertyRun:
                     continue
                 if kind == 'rlimit':
                     self.undecided.append('group=%s unit=%s reason=resource limit: %s' % (name, u.label if u else '?', e['message'][:200]))
+                    continue
+                if u is not None and getattr(u, 'sig_only', False) and kind not in ('postcondition', 'callee-precondition', 'arithmetic-overflow', 'division-by-zero', 'panic-reachable'):
+                    self.undecided.append('group=%s unit=%s reason=%s not decidable with signature-only weaving' % (name, u.label, kind))
                     continue
                 if u is None:
                     self.undecided.append('group=%s reason=verification failure inside the specification library (not in a unit of /repo): %s @gen line %s'
@@ -326,7 +361,8 @@ class PropertyRun:
                                             clause_gen_line=ref['line'],
                                             repo_file=u.file, repo_line=repo_line, rendered=e['rendered'],
                                             unit_raw=u.raw, unit_sha256=u.raw_sha, group=name,
-                                            checker_cmd=res['cmd'], identical_to_frozen=u.identical_to_frozen))
+                                            checker_cmd=res['cmd'], identical_to_frozen=u.identical_to_frozen,
+                                            weaving='signature-only' if getattr(u, 'sig_only', False) else 'full'))
             # consistency: verus reported errors but we classified none
             if grp['errors'] and not errs:
                 self.undecided.append('group=%s reason=verus reported %d errors without diagnostics' % (name, grp['errors']))
@@ -335,6 +371,14 @@ class PropertyRun:
             vjs = vres['json']
             if vjs is None or vres['timed_out']:
                 self.undecided.append('group=%s reason=vacuity run failed (rc=%s)' % (name, vres['rc']))
+                continue
+            vvr = vjs.get('verification-results', {})
+            if vvr.get('encountered-vir-error') or (vvr.get('encountered-error') and not vvr.get('errors')):
+                # the vacuity variant does not compile (same cause as the main file, e.g. a restructured body)
+                if not grp.get('sig_only'):
+                    self.undecided.append('group=%s reason=vacuity variant rejected by verus' % name)
+                else:
+                    self.notes.append('group=%s: vacuity variant not run (signature-only weaving)' % name)
                 continue
             verrs = runner.errors_of(vres)
             failing_lines = set()
@@ -398,7 +442,7 @@ class PropertyRun:
                        verifier_output=v['rendered'], repo_file=v['repo_file'], repo_line=v['repo_line'],
                        unit_source=v['unit_raw'], unit_sha256=v['unit_sha256'], generated_file=v['gen_file'],
                        generated_line=v['gen_line'], checker_cmd=v['checker_cmd'],
-                       unit_text_identical_to_frozen=v['identical_to_frozen'],
+                       unit_text_identical_to_frozen=v['identical_to_frozen'], weaving=v.get('weaving', 'full'),
                        failing_input=None,
                        note='Verus gives no counterexample; no failing input was searched for this obligation')
             extra = self.try_find_input(v, rep)
@@ -483,7 +527,7 @@ class PropertyRun:
                 solver_ms=smt_ms,
                 not_covered=cfg.get('not_covered', []),
                 vacuity={g['name']: g.get('vacuity') for g in self.groups},
-                undecided=self.undecided,
+                undecided=self.undecided, notes=self.notes,
                 violations=[dict(obligation=v['obligation'], message=v['message'], clause=v['clause_text']) for v in self.violations],
                 known_findings_reported=sorted(known_hit),
                 units_failing_only_on_known_findings=sorted(known_units),
